@@ -101,6 +101,13 @@ def case_strategy(draw):
         case["pacing"] = draw(S.pacing_scripts(max_len=16))
     if f is not None and draw(st.integers(0, 4)) == 0:
         case["dest_kind"] = draw(st.sampled_from(["dir", "existing"]))
+    if draw(st.integers(0, 3)) == 0:
+        # the same handler objects first carried another transfer (its indications must not leak into this one)
+        case["before"] = {
+            "file": draw(S.file_specs(cfg, max_bytes=300, max_segments=6, allow_none=True)),
+            "req_mode": draw(st.sampled_from([None, "ACK", "NAK"])), "req_closure": draw(st.sampled_from([None, True, True, False])),
+            "faults": draw(S.fault_schedules(max_faults=2, actions=("drop", "dup", "delay"))),
+        }
     return case
 
 
@@ -134,7 +141,22 @@ def evaluate(case):
     msgs, want_orig = build_msgs(case.get("msg_specs"))
     run_case = dict(case)
     run_case["msgs"] = msgs
-    s = sim.Sim(run_case)
+    sess = None
+    after_history = False
+    if case.get("before"):
+        sim.install_clock()
+        sim.CLOCK.reset()
+        sess = sim.Session(cfg, "t")
+        b = case["before"]
+        c0 = dict(cfg)
+        c0["req_mode"], c0["req_closure"] = b.get("req_mode"), b.get("req_closure")
+        ps = sim.Sim({"cfg": c0, "file": b["file"], "faults": b.get("faults")}, session=sess, fresh_clock=False)
+        ps.run(max_steps=4000, max_ticks=40)
+        if ps.outcome != "done" or ps.src.internal_error or ps.dst.internal_error:
+            sess.close()
+            return Result([], False, ["earlier-transfer-did-not-end"], {})
+        after_history = True
+    s = sim.Sim(run_case, session=sess, fresh_clock=sess is None)
     vs = []
 
     def bad(clause, sig, detail=""):
@@ -301,13 +323,17 @@ def evaluate(case):
             classes.append("msg:none")
         if internal:
             classes.append("aborted-by-internal-error")
-        key = (tuple(sw), mode, closure, S.size_class(None if s.content is None else size, seg), str(case.get("faults")), str(case.get("inject")), tuple(kinds))
+        if after_history:
+            classes.append("after-earlier-transfer")
+        key = (tuple(sw), mode, closure, S.size_class(None if s.content is None else size, seg), str(case.get("faults")), str(case.get("inject")), tuple(kinds), str(case.get("before")))
         summ = sim.summarize(s)
         summ["src_indications"] = names[:12]
         summ["dst_indications"] = dst_names[:20]
         return Result(vs, nt, classes, summ, nt_key=key)
     finally:
         s.close()
+        if sess is not None:
+            sess.close()
 
 
 def replay(case):
